@@ -329,7 +329,7 @@ Qed.
 
 Lemma invx_same : forall x st st',
   indexes st' = indexes st -> used st' = used st -> disk st' = disk st -> views st' = views st ->
-  ijob st' = ijob st -> mjob st' = mjob st -> tjob st' = tjob st -> next_uid st' = next_uid st ->
+  ijob st' = ijob st -> mjob st' = mjob st -> tj_files (tjob st') = tj_files (tjob st) -> next_uid st' = next_uid st ->
   (ijob st' <> None -> queue st' <> []) ->
   invx x st -> invx x st'.
 Proof.
@@ -395,6 +395,22 @@ Proof.
     intros u. hsimpl. rewrite (OV u). lia.
   - intros u H. apply F. hsimpl. rewrite (OV u).
     destruct H; [left|right; auto]. lia.
+Qed.
+
+Lemma tj_files_invalidate : forall h o, tj_files (invalidate_tj h o) = tj_files o.
+Proof. intros h [[snap ph v]|]; reflexivity. Qed.
+
+Lemma step_tagdel_ok : forall u h st, inv13 st -> inv13 (step capdb rf merge st (ATagDel u h)).
+Proof.
+  intros u h st I. simpl. destruct (ntags st =? 0); [exact I|].
+  apply (invx_same [] st); auto; simpl; [apply tj_files_invalidate|apply (i_queue _ _ I)].
+Qed.
+
+Lemma step_tagupd_ok : forall u h st, inv13 st -> inv13 (step capdb rf merge st (ATagUpd u h)).
+Proof.
+  intros u h st I. simpl. destruct (ntags st =? 0); [exact I|].
+  apply start_tagging_ok.
+  apply (invx_same [] st); auto; simpl; [apply tj_files_invalidate|apply (i_queue _ _ I)].
 Qed.
 
 Lemma step_tagadd_ok : forall st, inv13 st -> inv13 (step capdb rf merge st ATagAdd).
@@ -494,7 +510,7 @@ Qed.
 Lemma step_start_tag_ok : forall st, inv13 st -> inv13 (step capdb rf merge st (AStart KTag)).
 Proof.
   intros st I. simpl.
-  destruct (tjob st) as [[snap [|]]|] eqn:Hj; try exact I.
+  destruct (tjob st) as [[snap [|] vv]|] eqn:Hj; try exact I.
   destruct I as [C F P1 Q IS MS].
   constructor; simpl; auto.
   - refine (consistent_ext _ _ _ _ _ _ _ _ C); intros u; hsimpl; rewrite ?Hj; reflexivity.
@@ -505,7 +521,7 @@ Qed.
 Lemma step_complete_tag_ok : forall st, inv13 st -> inv13 (step capdb rf merge st (AComplete KTag)).
 Proof.
   intros st I. simpl.
-  destruct (tjob st) as [[snap [|]]|] eqn:Hj; try exact I.
+  destruct (tjob st) as [[snap [|] vv]|] eqn:Hj; try exact I.
   apply release_extra_ok. apply start_merge_ok. apply start_tagging_ok.
   destruct I as [C F P1 Q IS MS].
   constructor; simpl; auto.
@@ -587,12 +603,14 @@ Qed.
 
 Theorem step_inv13 : forall st a, inv13 st -> inv13 (step capdb rf merge st a).
 Proof.
-  intros st a I. destruct a as [ks|v|v|v| |k|k].
+  intros st a I. destruct a as [ks|v|v|v| |u h|u h|k|k].
   - apply step_import_ok; auto.
   - apply step_view_ok; auto.
   - apply step_read_ok; auto.
   - apply step_release_ok; auto.
   - apply step_tagadd_ok; auto.
+  - apply step_tagdel_ok; auto.
+  - apply step_tagupd_ok; auto.
   - destruct k; [apply step_start_import_ok|apply step_start_merge_ok|apply step_start_tag_ok]; auto.
   - destruct k; [apply step_complete_import_ok|apply step_complete_merge_ok|apply step_complete_tag_ok]; auto.
 Qed.
@@ -646,18 +664,20 @@ Qed.
 
 Lemma step_uniq : forall st a, inv13 st -> uniq st -> uniq (step capdb rf merge st a).
 Proof.
-  intros st a I U. destruct a as [ks|v|v|v| |k|k]; simpl.
+  intros st a I U. destruct a as [ks|v|v|v| |wu h|wu h|k|k]; simpl.
   - destruct ks; auto. destruct (ascending _ _); auto.
     destruct (_ =? _)%nat; auto.
   - destruct (view_of v (views st)); auto.
   - destruct (view_of v (views st)) as [[|]|]; auto. destruct rf; auto.
   - destruct (view_of v (views st)); auto.
   - intros u. rewrite indexes_start_tagging. apply U.
+  - destruct (ntags st =? 0); auto.
+  - destruct (ntags st =? 0); auto. intros u. rewrite indexes_start_tagging. apply U.
   - destruct k.
     + destruct (ijob st) as [[caps nx snap [|] cr un]|]; auto.
       destruct (from_pcap capdb (known st) caps snap) as [[es usednew] allk]. auto.
     + destruct (mjob st) as [[off snap [|] mg]|]; auto.
-    + destruct (tjob st) as [[snap [|]]|]; auto.
+    + destruct (tjob st) as [[snap [|] vv]|]; auto.
   - destruct k.
     + destruct (ijob st) as [[caps nx snap [|] cr un]|] eqn:Hj; auto.
       intros u. rewrite indexes_start_merge, indexes_start_tagging.
@@ -681,7 +701,7 @@ Proof.
       { unfold pending_files. rewrite Hj. simpl. rewrite occ_app. lia. }
       pose proof (pending_not_held st u I P) as Z0.
       pose proof (i_pend1 _ _ I u) as P1. unfold pending_files in P1. rewrite Hj in P1. simpl in P1. rewrite occ_app in P1. lia.
-    + destruct (tjob st) as [[snap [|]]|]; auto.
+    + destruct (tjob st) as [[snap [|] vv]|]; auto.
       intros u. rewrite indexes_set_used_disk, indexes_start_merge, indexes_start_tagging. apply U.
 Qed.
 
